@@ -23,6 +23,7 @@ type fn struct {
 	writes    map[string]bool
 	holds     map[string]bool // mutex vars locked for the whole body (Lock + defer Unlock)
 	progWrite []string
+	libState  []string // calls and assignments that reset process-wide state of a library package (rand.Seed, os.Chdir, os.Stdout = ...)
 }
 
 type filePkg struct {
@@ -98,8 +99,23 @@ func main() {
 		}
 		return true // unresolved in file scope: a package-level name of another file
 	}
+	// functions of library packages that replace process-wide state every goroutine shares: the generator draws loop ids from math/rand's global
+	// source and relies on it only ever moving forward; working directory and environment are shared by all file operations
+	resets := map[string]bool{"math/rand.Seed": true, "math/rand/v2.Seed": true, "os.Chdir": true, "os.Setenv": true, "os.Unsetenv": true, "os.Clearenv": true}
 	for _, fp := range files {
 		pkg := fp.pkg
+		imports := map[string]string{} // local name -> import path
+		for _, im := range fp.f.Imports {
+			path := strings.Trim(im.Path.Value, "\"")
+			local := path[strings.LastIndex(path, "/")+1:]
+			if local == "v2" {
+				local = "rand"
+			}
+			if im.Name != nil {
+				local = im.Name.Name
+			}
+			imports[local] = path
+		}
 		for _, decl := range fp.f.Decls {
 			fd, ok := decl.(*ast.FuncDecl)
 			if !ok || fd.Body == nil {
@@ -133,6 +149,9 @@ func main() {
 				rootID, depth := rootIdent(e)
 				if rootID == nil {
 					return
+				}
+				if path, ok := imports[rootID.Name]; ok && rootID.Obj == nil && depth > 0 && !strings.Contains(path, "jmeaster30/vore") {
+					F.libState = append(F.libState, fmt.Sprintf("%s.%s: %s = ...", pkg, name, exprString(e)))
 				}
 				lhsSet[rootID] = true
 				if isPkgVar(pkg, rootID) {
@@ -173,6 +192,11 @@ func main() {
 						F.calls[f.Name] = true
 					case *ast.SelectorExpr:
 						F.calls[f.Sel.Name] = true
+						if id, ok := f.X.(*ast.Ident); ok && id.Obj == nil {
+							if path, ok := imports[id.Name]; ok && resets[path+"."+f.Sel.Name] {
+								F.libState = append(F.libState, fmt.Sprintf("%s.%s: %s.%s(...)", pkg, name, path, f.Sel.Name))
+							}
+						}
 						if f.Sel.Name == "Lock" {
 							if id, ok := f.X.(*ast.Ident); ok {
 								locked[id.Name] = true
@@ -267,6 +291,11 @@ func main() {
 		progWrites = append(progWrites, f.progWrite...)
 	}
 	sort.Strings(progWrites)
+	var libState []string
+	for f := range all {
+		libState = append(libState, f.libState...)
+	}
+	sort.Strings(libState)
 	sortAcc := func(a []acc) {
 		sort.Slice(a, func(i, j int) bool { return a[i].v+a[i].f+a[i].kind < a[j].v+a[j].f+a[j].kind })
 	}
@@ -289,6 +318,8 @@ func main() {
 	b.WriteString("Definition synchronised_accesses : list (string * string * string) := [" + accList(synced) + "].\n\n")
 	b.WriteString("(* assignments in package engine through a parameter of a bytecode/ast type *)\n")
 	b.WriteString("Definition program_writes_at_run_time : list string := [" + quoteList(progWrites) + "].\n\n")
+	b.WriteString("(* calls and assignments, reachable from the entry points, that reset process-wide state of a library package *)\n")
+	b.WriteString("Definition library_state_resets : list string := [" + quoteList(libState) + "].\n\n")
 	b.WriteString(fmt.Sprintf("Definition functions_reachable : nat := %d.\n", len(all)))
 	if err := os.WriteFile(out, []byte(b.String()), 0o644); err != nil {
 		fail(err)
